@@ -62,6 +62,7 @@ class Interp:
         self.atoms = {"s": (1, P - 1)}
         self.relations = []         # lin == 0
         self.qr = {}
+        self.rem_of = {}
         self.notes = []
         self.wraps = []
         self.refine = {}            # expr -> (lo, hi) from the branch conditions of the path
@@ -75,6 +76,20 @@ class Interp:
         key = (tuple(sorted(v.lin.items(), key=str)), k)
         if key in self.qr:
             return self.qr[key]
+        # exact multiples of 2^k split without new atoms
+        if k > 0 and all(isinstance(c, int) and c % (1 << k) == 0 for c in v.lin.values()):
+            return AbsVal({a: c >> k for a, c in v.lin.items()}, v.lo >> k, v.hi >> k), AbsVal({}, 0, 0)
+        # (x mod 2^k1) split at k <= k1:  remainder is x mod 2^k, quotient is (x >> k) mod 2^(k1-k)
+        if len(v.lin) == 1:
+            (nm, cf), = v.lin.items()
+            if cf == 1 and isinstance(nm, str) and nm in self.rem_of:
+                x, k1 = self.rem_of[nm]
+                if k <= k1:
+                    qx, rx = self.split(x, k)
+                    if k == k1:
+                        return AbsVal({}, 0, 0), rx
+                    qq, rq = self.split(qx, k1 - k)
+                    return rq, rx
         n = len(self.qr)
         q = self.new_atom("q%d" % n, v.lo >> k, v.hi >> k)
         rhi = min(v.hi, (1 << k) - 1) if v.hi < (1 << k) else (1 << k) - 1
@@ -82,7 +97,49 @@ class Interp:
         rel = lin_add(lin_add(v.lin, lin_scale(q.lin, 1 << k), -1), r.lin, -1)
         self.relations.append(rel)
         self.qr[key] = (q, r)
+        self.rem_of["r%d" % n] = (v, k)
         return q, r
+
+    def bound(self, v):
+        """Range of a linear form, refined by case analysis on quotient atoms with few values: for x = 2^k q + r with x in
+        [x.lo, x.hi], fixing q narrows r to [x.lo - 2^k q, x.hi - 2^k q] (a carry bit and the low part are not independent)."""
+        import itertools
+        splits = []
+        for key, (q, r) in self.qr.items():
+            if not (isinstance(key, tuple) and len(key) == 2 and isinstance(key[1], int)):
+                continue
+            qn, rn = list(q.lin)[0], list(r.lin)[0]
+            if (qn in v.lin or rn in v.lin) and qn in self.atoms and self.atoms[qn][1] - self.atoms[qn][0] <= 3 and rn in self.rem_of:
+                splits.append((qn, rn, self.rem_of[rn][0], key[1]))
+        if not splits or len(splits) > 4:
+            return v.lo, v.hi
+        best_lo, best_hi = None, None
+        for vals in itertools.product(*[range(self.atoms[qn][0], self.atoms[qn][1] + 1) for qn, rn, x, k in splits]):
+            rng = dict(self.atoms)
+            feasible = True
+            for (qn, rn, x, k), qv in zip(splits, vals):
+                rlo, rhi = max(0, x.lo - (qv << k)), min((1 << k) - 1, x.hi - (qv << k))
+                if rlo > rhi:
+                    feasible = False
+                    break
+                rng[qn] = (qv, qv)
+                rng[rn] = (max(rng[rn][0], rlo), min(rng[rn][1], rhi))
+            if not feasible:
+                continue
+            lo = hi = 0
+            for a, c in v.lin.items():
+                if a == 1:
+                    lo += c
+                    hi += c
+                    continue
+                alo, ahi = rng[a]
+                lo += c * (alo if c > 0 else ahi)
+                hi += c * (ahi if c > 0 else alo)
+            best_lo = lo if best_lo is None else min(best_lo, lo)
+            best_hi = hi if best_hi is None else max(best_hi, hi)
+        if best_lo is None:
+            return v.lo, v.hi
+        return max(v.lo, best_lo), min(v.hi, best_hi)
 
     def ev(self, e):
         v = self._ev(e)
@@ -136,8 +193,10 @@ class Interp:
                 c = 1 << e[4][2]
                 r = AbsVal(lin_scale(a.lin, c), a.lo * c, a.hi * c)
                 if r.hi > lim:
-                    self.wraps.append("%s may exceed 2^%d: max %d" % (fmt(e)[:60], bits, r.hi))
-                    raise Top("possible wrap in shl")
+                    # the bits shifted out are discarded: (a << k) mod 2^bits == (a mod 2^(bits-k)) << k, modelled exactly
+                    q, low = self.split(a, bits - e[4][2])
+                    self.notes.append("%s discards high bits (modelled as (x mod 2^%d) << %d)" % (fmt(e)[:50], bits - e[4][2], e[4][2]))
+                    return AbsVal(lin_scale(low.lin, c), low.lo * c, low.hi * c)
                 return r
             if op == "lshr" and e[4][0] == "c":
                 a = self.ev(e[3])
@@ -154,6 +213,29 @@ class Interp:
                         return a
                     q, r = self.split(a, kbits)
                     return r
+                if m[0] == "c" and m[2]:
+                    # a contiguous field of bits  M = (2^j - 1) << k :  a & M = ((a >> k) mod 2^j) * 2^k
+                    kk = (m[2] & -m[2]).bit_length() - 1
+                    top = m[2] >> kk
+                    if (top & (top + 1)) == 0:
+                        a = self.ev(x)
+                        q1, r1 = self.split(a, kk)
+                        jj = top.bit_length()
+                        if q1.hi <= top:
+                            fld = q1
+                        else:
+                            q2, fld = self.split(q1, jj)
+                        return AbsVal(lin_scale(fld.lin, 1 << kk), fld.lo << kk, fld.hi << kk)
+            if op == "or":
+                a, b = self.ev(e[3]), self.ev(e[4])
+                for u, v in ((a, b), (b, a)):
+                    # u is a multiple of 2^k and v < 2^k: no bit in common, so u | v == u + v
+                    kk = v.hi.bit_length()
+                    if v.lo >= 0 and all(isinstance(c, int) and c % (1 << kk) == 0 for c in u.lin.values()):
+                        r = AbsVal(lin_add(u.lin, v.lin), u.lo + v.lo, u.hi + v.hi)
+                        if r.hi > lim:
+                            raise Top("possible wrap in or-as-add")
+                        return r
             if op in ("urem",) and e[4][0] == "c":
                 a = self.ev(e[3])
                 d = e[4][2]
@@ -254,7 +336,13 @@ def run(chk):
     fn = m.fn("rand31_r")
     chk.note_fn(fn)
     ps = [p for p in paths.enumerate_paths(fn, m) if not paths.is_assert_fail_path(p)]
-    seed_exprs = set(e.val for p in ps for e in p.events if e.kind == "load" and e.ptr == ("arg", 0))
+    seed_exprs = set()
+    for p in ps:
+        for e in p.events:
+            if e.kind == "store" and e.ptr == ("arg", 0):
+                break                   # later loads see the new state (forwarded by the engine)
+            if e.kind == "load" and e.ptr == ("arg", 0):
+                seed_exprs.add(e.val)
     if len(seed_exprs) != 1:
         chk.unknown("M4.state", "rand31_r", "the state is not loaded from *seedp exactly as one value (%d)" % len(seed_exprs))
         return
@@ -297,7 +385,7 @@ def run(chk):
             continue
         chk.ob("M1.no-wrap", pid, True, "all %d arithmetic nodes stay within their width; result range [%d, %d]" %
                (sum(1 for _ in paths.subexprs(p.ret)), v.lo, v.hi), p.ret_inst.loc, fn.name)
-        lo, hi = v.lo, v.hi
+        lo, hi = it.bound(v)
         ok_c = it.congruent(v.lin, {"s": A})
         if ok_c:
             chk.ob("M2.congruence", pid, True, "result == 16807*s (mod p) using %d quotient/remainder relations" % len(it.relations),
